@@ -70,11 +70,15 @@ class Gen:
                     break
         self.fmt = rng.choice(FMTS)
         self.big = False
+        self.cursor = False
         if maxarea and rng.random() < 0.04:
             # reduced picture of a Raw client larger than the 32 KiB update buffer (multi-piece Raw rectangles)
             self.big = True
             self.W, self.H = rng.choice([(208, 200), (220, 180), (1024, 40), (400, 96), (190, 230)])
             self.fmt = "32"
+        # soft-cursor mode: the screen has a visible cursor, clients without `shape` get it painted
+        if not self.big and self.fmt != "8m" and self.W >= 16 and self.H >= 16 and rng.random() < 0.12:
+            self.cursor = True
         self.cl = {}          # id -> dict(tw, th, synced, dirty, nfs, mask)
         self.next_id = 0
         self.defer = 0
@@ -95,8 +99,10 @@ class Gen:
         if self.fmt == "24" or self.big:
             enc = "raw"     # the splitting encoders have no 24 bpp client format (they fail the update)
         cr = self.rng.random() < 0.25
-        self.emit("client %d %d %s%s" % (i, nfs, enc, " cr" if cr else ""))
-        self.cl[i] = dict(tw=self.W, th=self.H, synced=False, dirty=True, nfs=nfs, mask=0, enc=enc, cr=cr)
+        shape = self.cursor and i > 0 and self.rng.random() < 0.7   # the first client keeps the soft cursor
+        soft = self.cursor and not shape
+        self.emit("client %d %d %s%s%s" % (i, nfs, enc, " cr" if cr else "", " shape" if shape else ""))
+        self.cl[i] = dict(tw=self.W, th=self.H, synced=False, dirty=True, nfs=nfs, mask=0, enc=enc, cr=cr, soft=soft)
         return i
 
     def factor(self):
@@ -131,6 +137,8 @@ class Gen:
 
     def pic(self, i):
         c = self.cl[i]
+        if c["soft"]:
+            return          # its picture contains the painted cursor: not compared
         if c["synced"] and not c["dirty"]:
             self.lines.append("# sure")
         self.emit("pic %d" % i)
@@ -216,7 +224,7 @@ class Gen:
         """rfbNewFramebuffer: mostly a same-size buffer swap; a resize only when every client would be
         told (NewFBSize) and the recomputed scaled sizes stay pairwise distinct"""
         rng, W, H = self.rng, self.W, self.H
-        if self.fmt == "8m" or not self.cl:
+        if self.fmt == "8m" or not self.cl or self.cursor:
             return
         nW, nH = W, H
         if rng.random() < 0.4 and all(c["nfs"] for c in self.cl.values()):
@@ -395,6 +403,8 @@ class Gen:
     def build(self, nsteps):
         rng = self.rng
         self.emit("screen %d %d %s" % (self.W, self.H, self.fmt))
+        if self.cursor:
+            self.emit("cursor")
         for _ in range(rng.choice([1, 1, 2, 3])):
             self.join()
         self.emit("draw 0 0 %d %d %d" % (self.W, self.H, rng.randrange(1 << 31)))
